@@ -121,7 +121,7 @@ pub fn main(args: &[String]) {
     let workdir = args[0].clone(); let tier = &args[1]; let seed: u64 = args[2].parse().unwrap(); let out = &args[3];
     let thorough = tier == "thorough";
     let corp = std::sync::Arc::new(corpus::load(&workdir));
-    let step = if thorough { 1 } else { 3 };
+    let step = if thorough { 1 } else { 2 };
     let idxs: Vec<usize> = (0..corp.len()).filter(|i| (i + seed as usize) % step == 0).collect();
     let idxs = std::sync::Arc::new(idxs);
     let (c2, i2, w2) = (corp.clone(), idxs.clone(), workdir.clone());
